@@ -270,12 +270,24 @@ def main():
     ap.add_argument('--only', default='')
     ap.add_argument('--list', action='store_true')
     ap.add_argument('--out', default='')
+    ap.add_argument('--skip-done', default='',
+                    help='jsonl file(s), comma separated: skip mutants '
+                         'already listed there (same file, line, new text)')
     a = ap.parse_args()
     muts = generate(a.lang)
     sel = list(enumerate(muts))
     if a.only:
         sel = [(i, m) for i, m in sel if re.search(a.only, '%s:%d %s' % (
             m['file'], m['line'], m['what']))]
+    if a.skip_done:
+        done = set()
+        for fn in a.skip_done.split(','):
+            if os.path.exists(fn):
+                for ln in open(fn):
+                    r = json.loads(ln)
+                    done.add((r['file'], r['line'], r['new']))
+        sel = [(i, m) for i, m in sel
+               if (m['file'], m['line'], m['new'].strip()) not in done]
     sel = sel[a.start::a.stride]
     if a.limit:
         sel = sel[:a.limit]
